@@ -258,6 +258,26 @@ pub fn run<KD: Kind, const N: usize, const M: usize>(case: &Case, cx: &mut Ctx) 
     check_iter::<KD, _, _>(cx, liar, "difference", || lc.m.difference(&rc.m), ext, &diff, Some((&ml, &inside_l)), bound, salt);
     cx.cur_op = "symmetric_difference";
     check_iter::<KD, _, _>(cx, liar, "symmetric_difference", || lc.m.symmetric_difference(&rc.m), ext, &sym, None, bound, salt);
+    // the same object on both sides (a set against itself): a "same object" shortcut must still
+    // give the mathematical answer, for empty sets too
+    cx.cur_op = "self-pair";
+    {
+        let none: Vec<u8> = Vec::new();
+        check_iter::<KD, _, _>(cx, liar, "left.union(left)", || lc.m.union(&lc.m), ext, &sl, None, bound, salt);
+        check_iter::<KD, _, _>(cx, liar, "left.intersection(left)", || lc.m.intersection(&lc.m), ext, &sl, Some((&ml, &inside_l)), bound, salt);
+        check_iter::<KD, _, _>(cx, liar, "left.difference(left)", || lc.m.difference(&lc.m), ext, &none, Some((&ml, &inside_l)), bound, salt);
+        check_iter::<KD, _, _>(cx, liar, "left.symmetric_difference(left)", || lc.m.symmetric_difference(&lc.m), ext, &none, None, bound, salt);
+        let selfpreds: [(&str, Result<bool, Pk>, bool); 3] = [
+            ("left.is_subset(left)", lib::<KD, _>(cx, || lc.m.is_subset(&lc.m)), true),
+            ("left.is_superset(left)", lib::<KD, _>(cx, || lc.m.is_superset(&lc.m)), true),
+            ("left.is_disjoint(left)", lib::<KD, _>(cx, || lc.m.is_disjoint(&lc.m)), sl.is_empty()),
+        ];
+        if !liar {
+            for (name, got, want) in selfpreds.iter() {
+                cx.chk(P08, *got == Ok(*want), "predicate", || format!("{name} gives {got:?} for {sl:?}, the mathematical truth value is {want}"));
+            }
+        }
+    }
     // difference_ref over an arena of fresh objects in the operands' iteration orders
     cx.cur_op = "difference_ref";
     {
